@@ -1,6 +1,7 @@
 from __future__ import annotations
 
 import ast
+import collections
 import copy
 import itertools
 import re
@@ -193,12 +194,18 @@ def safe_callable_names(root: ast.Module) -> Collection[str]:
     )
     safe_callables = set(constants.SAFE_CALLABLES) - redefined_names
     safe_callable_nodes = set()
+    definition_count = collections.Counter(
+        node.name
+        for node in core.walk(root, (ast.FunctionDef, ast.AsyncFunctionDef, ast.ClassDef))
+    )
     changes = True
     while changes:
         changes = False
         for node in function_defs:
             if node.name in defined_names:
                 continue
+            if definition_count[node.name] > 1:
+                continue  # Which of the definitions a call means is not known
             if node.decorator_list:
                 continue  # The name is bound to whatever the decorator returns
             nonreturn_children = []
@@ -223,6 +230,9 @@ def safe_callable_names(root: ast.Module) -> Collection[str]:
         function_defs = [node for node in function_defs if node.name not in safe_callables]
 
     for node in core.walk(root, ast.ClassDef):
+        if definition_count[node.name] > 1 or node.name in defined_names:
+            continue  # Which of the definitions a call means is not known
+
         constructors = {
             child
             for child in node.body
